@@ -18,7 +18,13 @@ class C36(Prop):
             "injection witness), counters incl. 0 and 2^63-1, floats incl. 0, fractions, 1e21, 5e-324, MaxFloat64, "
             "+-Inf, NaN, random bit patterns; queries: none (30%), type= (existing kind, mostly one that has "
             "entities; unknown values), one filter (mostly the key of an existing entity), type+filter of the same / "
-            "another kind, 2-3 filters, the own filter of every kind at once (10%), forward_dests with path= / forward_dest=, unrelated parameters. Shipped: "
+            "another kind, 2-3 filters, the own filter of every kind at once (10%), forward_dests with path= / forward_dest=, unrelated parameters. "
+            "Every 4th case is an OVERLAP GROUP: 2-3 scrapes (different queries, or the same one twice) of ONE Metrics "
+            "instance run in goroutines under a cooperative scheduler whose switch points are the list calls of the stub "
+            "servers (deterministic, no real race needed): schedules alternate / random / bursts / nested (request 0 "
+            "suspended at its k-th list call while the others run) / sequential (the instance reused without overlap); "
+            "classes overlap:<shape> (two requests really in flight at once) / reuse:<shape>; EACH response is judged by "
+            "the same exposition checker, and the model of concurrent scrapes is replayed under the shipped schedule. Shipped: "
             "every scalar field of every entity (by reflection), the query, the body, the expected samples. "
             "Non-trivial = an entity with a quote, backslash or newline in a string field is shown")
     trusted_base = ["Coq 8.16.1 kernel + VM (primitive 63-bit integers only to ship byte strings compactly)",
@@ -33,7 +39,12 @@ class C36(Prop):
                     "oracle: strconv.FormatFloat(v,'f',-1,64) tokens are shipped by the driver (non-empty, no newline "
                     "is checked on every case: wf_stateb)",
                     "stdlib DecimalZ round trip (Z.to_int / Z.of_int) for FormatInt",
-                    "gin's ctx.Query = first value of the key in the decoded query (driver ships decoded pairs)"]
+                    "gin's ctx.Query = first value of the key in the decoded query (driver ships decoded pairs)",
+                    "Model/C36_Concurrent.v: the handler as instructions over shared (Metrics fields, RWMutex) and per-request "
+                    "state, one instruction per step of a schedule (sequentially consistent interleaving; the theorems hold for "
+                    "every cut of the body into pieces); the driver's scheduler switches requests only at list calls on the "
+                    "stub servers (a shared-state edit that is only observable through a preemption elsewhere or a real data "
+                    "race is not exercised)"]
     assumptions = ["float-valued samples (jitter, rates) are opaque value tokens: the line must parse and the token must equal "
                    "strconv.FormatFloat(v,'f',-1,64); the number itself is not interpreted",
                    "counters >= 2^63 are printed negative by int64(uint64) (modelled: wrap64) and are out of the generated range; "
@@ -49,7 +60,12 @@ class C36(Prop):
              "labelled sample belongs to an existing entity passing every active filter and carries the filter value under the "
              "filtered label (C36_filter_sound, C36_filter_label); unlabelled samples are zero lines of kinds without entities "
              "(C36_zero_sound); rendering layer: C36_parse_render, C36_value_faithful, C36_label_value_roundtrip; the pre-fix "
-             "code (raw label values) is refuted with the injection witness. On every run the real handler's full body is "
+             "code (raw label values) is refuted with the injection witness. CONCURRENT scrapes: for any number of requests "
+             "on one instance, any schedule of their instructions and any cut of the bodies into pieces, a response that has "
+             "been written is that request's sequential body and parses to exactly its expected samples, and no request is "
+             "held up by another (C36_overlap_safe, C36_overlap_done, C36_overlap_sequential); the variant with the buffer in "
+             "the Metrics struct under RLock is refuted (C36_shared_buffer_rlock_refuted). On every run overlapping scrapes "
+             "are forced on the real handler (gates in the stub servers) and each response is judged. On every run the real handler's full body is "
              "compared byte for byte with the model and, independently, parsed and compared with expected samples for every "
              "metric name of every kind present.",
         note="Genuine defect fixed in /repo (5f31f76: label values were not escaped). Float samples are opaque tokens "
